@@ -160,3 +160,29 @@ def c11 (dump : List Task) (exactOrder : Bool) (q : Query) (offset limit : Int) 
   | _ => ["Find returned something that is not a list"]
 
 end Gk.Mon
+
+namespace Gk.Mon
+open Gk
+
+/-- C13 on one observed recovery operation of the SQL repository (`prev` / `next` = the implementation's
+own dumps around it): revert turns exactly the dispatched tasks into never-dispatched scheduled ones,
+cancel-dispatched turns exactly those into cancelled at `now`, everything else is untouched. -/
+def c13 (prev next : List Task) (op : Op) (now : Time) : List String :=
+  match op with
+  | .revert =>
+    let exp := prev.map fun t => if t.state == .dispatched then { t with state := .scheduled, dispatchedAt := none } else t
+    if next == exp then [] else
+      (exp.zip next).filterMap fun (e, n) =>
+        if e == n then none else some s!"after RevertDispatched task {n.id} is {n.state.name} (dispatched_at {Proto.encOptTime n.dispatchedAt}), expected {e.state.name} with no dispatched_at"
+  | .cancelDispatched =>
+    let exp := prev.map fun t =>
+      if t.state == .dispatched then { t with state := .cancelled, cancelledAt := some (normalize now) } else t
+    if next == exp then [] else
+      (exp.zip next).filterMap fun (e, n) =>
+        if e == n then none else some s!"after CancelDispatched task {n.id} is {n.state.name}, expected {e.state.name}"
+  | .deleteEnded =>
+    let exp := prev.filter fun t => t.state == .scheduled || t.state == .dispatched
+    if next == exp then [] else ["DeleteEnded removed or kept the wrong tasks"]
+  | _ => []
+
+end Gk.Mon
